@@ -6,6 +6,7 @@
 # which rules compare with the specified one.
 
 import ast
+from pyfront import clone as _clone
 import itertools
 
 from report import AnalysisError
@@ -87,6 +88,55 @@ def try_atom(st):
     return "raises: " + "; ".join(canon(x)[:60] for x in st.body[:2])
 
 
+def _is_boolish(e):
+    """expression that denotes a truth value computed from conditions (not a plain data value)"""
+    if isinstance(e, ast.Constant):
+        return isinstance(e.value, bool)
+    if isinstance(e, ast.BoolOp):
+        return True
+    if isinstance(e, ast.UnaryOp) and isinstance(e.op, ast.Not):
+        return True
+    if isinstance(e, ast.Compare):
+        return True
+    if isinstance(e, ast.IfExp):
+        return _is_boolish(e.body) and _is_boolish(e.orelse)
+    return False
+
+
+def _pure_value(e):
+    """value that can be substituted for a local without duplicating or moving an effect"""
+    if isinstance(e, (ast.Constant, ast.Name)):
+        return True
+    if isinstance(e, ast.Attribute):
+        return _pure_value(e.value)
+    if isinstance(e, ast.UnaryOp):
+        return _pure_value(e.operand)
+    if isinstance(e, ast.Subscript):
+        return _pure_value(e.value) and _pure_value(e.slice)
+    if isinstance(e, (ast.Tuple, ast.List)):
+        return all(_pure_value(x) for x in e.elts)
+    if isinstance(e, ast.IfExp):
+        return _pure_value(e.body) and _pure_value(e.orelse)
+    if isinstance(e, ast.BinOp):
+        return _pure_value(e.left) and _pure_value(e.right)
+    if isinstance(e, ast.Compare):
+        return _pure_value(e.left) and all(_pure_value(c) for c in e.comparators)
+    return False
+
+
+def derived_flags(stmts):
+    """local names that are only ever assigned truth-valued expressions inside
+    `stmts` (flags such as `drop = False ... drop = True`, `missing = a or b`)"""
+    vals = {}
+    for st in stmts:
+        for n in ast.walk(st):
+            if isinstance(n, ast.Assign) and len(n.targets) == 1 and isinstance(n.targets[0], ast.Name):
+                vals.setdefault(n.targets[0].id, []).append(n.value)
+            elif isinstance(n, ast.Name) and isinstance(n.ctx, ast.Store) and not isinstance(getattr(n, "_parent", None), ast.Assign):
+                vals.setdefault(n.id, []).append(None)
+    return {k for k, vs in vals.items() if all(v is not None and _is_boolish(v) for v in vs)}
+
+
 class Walker:
     """Walks a statement list under a truth assignment.
 
@@ -96,6 +146,8 @@ class Walker:
 
     def __init__(self, event, subst=None, norm=default_norm, loops="body", update=None, on_atom=None):
         self.on_atom = on_atom
+        self.flags = set()       # derived boolean locals (set by table())
+        self.locals = {}         # path-sensitive values of plain locals (name -> AST), substituted into events
         self.event = event
         self.update = update      # update(stmt, assign): a statement may change an atom's value
         self.subst = subst
@@ -103,8 +155,14 @@ class Walker:
         self.loops = loops
 
     def atoms(self, stmts, out=None):
+        top = out is None
+        if top:
+            self.flags = derived_flags(stmts)
         out = out if out is not None else []
         for st in stmts:
+            if isinstance(st, ast.Assign) and len(st.targets) == 1 and isinstance(st.targets[0], ast.Name) \
+                    and st.targets[0].id in self.flags:
+                collect_atoms(st.value, self.subst, self.norm, out)
             if isinstance(st, ast.If):
                 collect_atoms(st.test, self.subst, self.norm, out)
                 self.atoms(st.body, out)
@@ -122,6 +180,10 @@ class Walker:
                     self.atoms(h.body, out)
                 self.atoms(st.orelse, out)
                 self.atoms(st.finalbody, out)
+        if top:
+            for f in self.flags:
+                while f in out:
+                    out.remove(f)
         return out
 
     def walk(self, stmts, assign, events):
@@ -162,7 +224,7 @@ class Walker:
             elif isinstance(st, (ast.While, ast.For)):
                 raise AnalysisError("decision table: compound statement unclassifiable: %s" % canon(st)[:50])
             elif isinstance(st, ast.Return):
-                e = self.event(st)
+                e = self.event(self._subst_stmt(st, assign))
                 if e is not None:
                     events.append(e)
                 return "ret"
@@ -173,21 +235,95 @@ class Walker:
             elif isinstance(st, (ast.Continue, ast.Break)):
                 return "loop"
             else:
+                if isinstance(st, ast.Assign) and len(st.targets) == 1 and isinstance(st.targets[0], ast.Name):
+                    nm = st.targets[0].id
+                    if nm in self.flags:
+                        assign[nm] = bool(eval_bool(st.value, assign, self.subst, self.norm, self.on_atom))
+                        continue
+                    # plain local with a pure value: remember it (substituted) for later events on this path
+                    if _pure_value(st.value):
+                        self.locals[nm] = self._subst(st.value)
+                        if self.update is not None:
+                            self.update(st, assign)
+                        continue
+                    self.locals.pop(nm, None)
+                if isinstance(st, ast.Assign) and len(st.targets) == 1 and isinstance(st.targets[0], (ast.Tuple, ast.List)) \
+                        and all(isinstance(x, ast.Name) for x in st.targets[0].elts):
+                    v = self._subst(st.value)
+                    if not _pure_value(st.value):
+                        for x in st.targets[0].elts:
+                            self.locals.pop(x.id, None)
+                        if self.update is not None:
+                            self.update(st, assign)
+                        e = self.event(self._subst_stmt(st, assign))
+                        if e is not None:
+                            events.append(e)
+                        continue
+                    for i, x in enumerate(st.targets[0].elts):
+                        if isinstance(v, (ast.Tuple, ast.List)) and len(v.elts) == len(st.targets[0].elts):
+                            self.locals[x.id] = v.elts[i]
+                        elif isinstance(v, ast.IfExp) and all(isinstance(b, (ast.Tuple, ast.List)) and len(b.elts) == len(st.targets[0].elts)
+                                                             for b in (v.body, v.orelse)):
+                            self.locals[x.id] = ast.IfExp(test=v.test, body=v.body.elts[i], orelse=v.orelse.elts[i])
+                        else:
+                            self.locals[x.id] = ast.Subscript(value=v, slice=ast.Constant(value=i), ctx=ast.Load())
+                    continue
                 if self.update is not None:
                     self.update(st, assign)
-                e = self.event(st)
+                e = self.event(self._subst_stmt(st, assign))
                 if e is not None:
                     events.append(e)
         return None
 
+    def _subst(self, e):
+        if not self.locals:
+            return e
+        import copy
+        from pyfront import _Subst
+        return ast.fix_missing_locations(_Subst(dict(self.locals)).visit(_clone(e)))
+
+    def _resolve_ifexp(self, e, assign):
+        """replace conditional expressions whose test is decided by the current row"""
+        me = self
+
+        class T(ast.NodeTransformer):
+            def visit_IfExp(self, n):
+                self.generic_visit(n)
+                try:
+                    c = eval_bool(n.test, assign, me.subst, me.norm)
+                except AnalysisError:
+                    return n
+                return n.body if c else n.orelse
+        import copy
+        return ast.fix_missing_locations(T().visit(_clone(e)))
+
+    def _subst_stmt(self, st, assign):
+        if not self.locals and not any(isinstance(n, ast.IfExp) for n in ast.walk(st)):
+            return st
+        import copy
+        from pyfront import _Subst
+        new = _Subst(dict(self.locals)).visit(_clone(st)) if self.locals else _clone(st)
+        new = self._resolve_ifexp(new, assign)
+        ast.fix_missing_locations(new)
+        for a in ("lineno", "col_offset"):
+            if hasattr(st, a):
+                setattr(new, a, getattr(st, a))
+        new._parent = getattr(st, "_parent", None)
+        return new
+
     def table(self, stmts, atoms=None):
-        atoms = atoms if atoms is not None else self.atoms(stmts)
+        if atoms is None:
+            atoms = self.atoms(stmts)
+        elif not self.flags:
+            self.flags = derived_flags(stmts)
+            atoms = [a for a in atoms if a not in self.flags]
         if len(atoms) > 12:
             raise AnalysisError("decision table too large (%d atoms)" % len(atoms))
         rows = {}
         for vals in itertools.product([False, True], repeat=len(atoms)):
             assign = dict(zip(atoms, vals))
             ev = []
+            self.locals = {}
             self.walk(stmts, dict(assign), ev)
             rows[vals] = tuple(ev)
         return atoms, rows
